@@ -52,7 +52,8 @@ def listOut : Except Fault (Option (List Nat)) → String
   | .error f => faultStr f
 
 def dump (d : Device) : String :=
-  s!"s={d.source} n={hex16 d.name} ct={d.createTime} pl={boolStr d.prodLoaded} v={d.prod.n2kVersion} " ++
+  s!"s={d.source} n={hex16 d.name} mc={manufacturerCode d.name} un={uniqueNumber d.name} ct={d.createTime} " ++
+  s!"pl={boolStr d.prodLoaded} v={d.prod.n2kVersion} " ++
   s!"c={d.prod.productCode} id={hexOfBytes d.prod.modelID} sw={hexOfBytes d.prod.swCode} " ++
   s!"mv={hexOfBytes d.prod.modelVersion} sn={hexOfBytes d.prod.serialCode} cl={d.prod.certLevel} " ++
   s!"le={d.prod.loadEq} cf={boolStr d.confLoaded} man={strOut d.getManufacturerInformation} " ++
